@@ -40,6 +40,9 @@ type loadExtra struct {
 	Reported *[]string
 	// DefaultIO: leave LogOptions.IO unset when the log uses the default codec (the loaders then pick the default themselves)
 	DefaultIO bool
+	// LogOpts: the caller keeps ONE LogOptions value and hands it to every load it makes (the loaders and NewLog fill
+	// in their defaults through the pointer; the next load gets the same value again)
+	LogOpts *ipfslog.LogOptions
 }
 
 func doLoad(ctx context.Context, api coreiface.CoreAPI, w *sim.World, loader string, manifest cid.Cid, jsonLog *iface.JSONLog, entries []iface.IPFSLogEntry, hash cid.Cid, length *int, conc int, exclude iface.ExcludeFunc, timeout int, extra ...loadExtra) (*ipfslog.IPFSLog, error) {
@@ -49,7 +52,9 @@ func doLoad(ctx context.Context, api coreiface.CoreAPI, w *sim.World, loader str
 	if len(extra) > 0 {
 		x = extra[0]
 	}
-	if x.DefaultIO && world.Codec(w.Prog.Codec) == world.CodecDefault {
+	if x.LogOpts != nil {
+		lo = x.LogOpts
+	} else if x.DefaultIO && world.Codec(w.Prog.Codec) == world.CodecDefault {
 		lo.IO = nil
 	}
 	var fsort iface.EntrySortFn
